@@ -54,6 +54,14 @@ def _run_history(hist):
         for step, h in enumerate(hist):
             op = h[0]
             asked = {}
+            try:
+                _apply = True
+                if op == "init":
+                    from persim import PersistenceImager as _PI
+                    _PI(birth_range=tuple(h[1]), pers_range=tuple(h[2]), pixel_size=h[3])
+            except Exception as ex:
+                out.append((step, op + ":exception", "constructor raised %r" % (ex,)))
+                break
             if op == "init":
                 _, br, pr, ps = h
                 pi = PersistenceImager(birth_range=tuple(br), pers_range=tuple(pr), pixel_size=ps)
@@ -70,7 +78,11 @@ def _run_history(hist):
                 asked = old
             elif op == "fit":
                 d = np.array(h[1], dtype=float)
-                pi.fit(d, skew=True)
+                try:
+                    pi.fit(d, skew=True)
+                except Exception as ex:
+                    out.append((step, op + ":exception", "fit raised %r" % (ex,)))
+                    break
                 asked = {"birth": (float(d[:, 0].min()), float(d[:, 0].max())),
                          "pers": (float((d[:, 1] - d[:, 0]).min()), float((d[:, 1] - d[:, 0]).max()))}
             for kind, text in _wf_violations(pi, asked, op):
